@@ -84,6 +84,41 @@ theorem color_code (isBg : Bool) (c : ColorSpec) (col : Colour) (hc : c ≠ .non
     | basic k => simpa [actOf] using (basic_ok isBg k hwf).1
     | idx n => simpa [actOf] using (idx_ok isBg n hwf).1
 
+/-! ## flag values -/
+
+/-- effect flags and `no_color` act through their truth value only: with valid colours, an effect is
+requested exactly when its argument is truthy (`1`, `2`, `"x"`, `[0]`, `1.5`, `True` — not `None`,
+`False`, `0`, `0.0`, `""`, `[]`), and a truthy `no_color` of any kind switches everything off -/
+theorem flags_by_truthiness (s : Spec) :
+    (truthy s.noColorArg = true → wantedAttr s = some Attr.default ∧ mkSeq cfg s = .ok ([], [])) ∧
+    (truthy s.noColorArg = false → ∀ a, wantedAttr s = some a →
+      a.bold = truthy s.bold ∧ a.faint = truthy s.faint ∧ a.underline = truthy s.underline ∧
+      a.blink = truthy s.blink ∧ a.crossed = truthy s.crossed) := by
+  constructor
+  · intro h
+    have hn : s.noColor = true := h
+    exact ⟨by simp [wantedAttr, hn], mkSeq_nocolor cfg s hn⟩
+  · intro h a ha
+    have hn : s.noColor = false := h
+    obtain ⟨_, _, he⟩ := wantedAttr_colours s a hn ha
+    rw [he]; simp
+
+/-- two argument lists that differ only in the *kind* of the flag values (same truth values) make
+the same formatter, for text and for bytes -/
+theorem flag_kinds_irrelevant (s s' : Spec) (hfg : s.fg = s'.fg) (hbg : s.bg = s'.bg)
+    (h1 : truthy s.bold = truthy s'.bold) (h2 : truthy s.faint = truthy s'.faint)
+    (h3 : truthy s.underline = truthy s'.underline) (h4 : truthy s.blink = truthy s'.blink)
+    (h5 : truthy s.crossed = truthy s'.crossed) (h6 : truthy s.noColorArg = truthy s'.noColorArg) :
+    mkSeq cfg s = mkSeq cfg s' ∧ mkSeqBytes cfg s = mkSeqBytes cfg s' := by
+  have hflag : ∀ e, truthy (s.flag e) = truthy (s'.flag e) := by
+    intro e; cases e <;> simp [Spec.flag, h1, h2, h3, h4, h5]
+  have he : effectCodes cfg s = effectCodes cfg s' := by simp only [effectCodes, hflag]
+  have hn : s.noColor = s'.noColor := h6
+  have : mkSeq cfg s = mkSeq cfg s' := by
+    unfold mkSeq colorCodes
+    rw [hn, hfg, hbg, he]
+  exact ⟨this, by simp [mkSeqBytes, this]⟩
+
 /-! ## formatters that must not emit anything -/
 
 /-- a `no_color` formatter adds nothing: the output is the text itself, without any ESC -/
@@ -375,9 +410,9 @@ theorem bytes_same (s : Spec) :
 /-! Non-vacuity: concrete formatters evaluated by the kernel (the hypotheses are satisfiable and
 the conclusions are the expected literal sequences). -/
 
-private def red : Spec := ⟨.str "RED".toList, .none, none, none, none, none, none, false⟩
+private def red : Spec := ⟨.str "RED".toList, .none, .none, .none, .none, .none, .none, .bool false⟩
 private def fancy : Spec :=
-  ⟨.tuple [.int 1, .int 2, .int 3], .str "g5".toList, some true, none, some false, none, some true, false⟩
+  ⟨.tuple [.int 1, .int 2, .int 3], .str "g5".toList, .bool true, .none, .bool false, .list 0, .str "x".toList, .int 0⟩
 
 example : wantedAttr red = some ⟨.basic 1, .dflt, false, false, false, false, false⟩ := by decide +kernel
 example : (mkChunk cfg red "x".toList).map (fun c => render [c]) =
